@@ -127,7 +127,14 @@ func runC20(tb ev.TB, p c20Prog) ev.Result {
 			_, err := ks.CreateKey(ctx, id)
 			flaky.failPuts = 0
 			if err == nil {
-				tb.Fatalf("op #%d CreateKey(%q) returned no error although the datastore write failed", i, id)
+				// no error although a write failed: fine if the key was stored after all (a retry); it then has to
+				// behave like every created key from here on
+				k, gerr := ks.GetKey(ctx, id)
+				if gerr != nil {
+					tb.Fatalf("op #%d CreateKey(%q) returned no error although the datastore write failed, and the key cannot be read back: %v", i, id, gerr)
+				}
+				noteCreate(id, in, i, k)
+				continue
 			}
 			for si, k2 := range append(append([]*keystore.Keystore{}, inst...), mk()) {
 				if ok, _ := k2.HasKey(ctx, id); ok {
